@@ -48,16 +48,17 @@ def check(run):
                    'Spec/XmlChars.v: transcription of XML 1.0 5th ed. productions [2] [4] [4a] [13] [81]',
                    'harness/src/chars.rs sweep over all scalar values', 'extraction (ExtrOcamlBasic only) + ocaml/driver.ml']
     proved, _ = lib.proof_step(run, 'C18', ['T1', 'T2'])
-    okr, okm = lib.build_binaries(run)
+    okr, mok, sok = lib.build_binaries(run, model_areas=['chars'], spec_areas=['chars'])
+    okm = mok.get('chars', False)
     from . import names
     if okr:
         rc, rust_lines = lib.run_bin(lib.rust_bin(), ['chars'], timeout=300)
         rust, counts = parse_rust(rust_lines)
-        rc2, spec_lines = lib.run_bin(lib.spec_bin(), ['chars'], timeout=60)
+        rc2, spec_lines = lib.run_bin(lib.spec_bin('chars'), ['chars'], timeout=60)
         spec = dict(runs_from_thresholds(l) for l in spec_lines if l.startswith('thr '))
         model = {}
         if okm:
-            rc3, model_lines = lib.run_bin(lib.model_bin(), ['chars'], timeout=60)
+            rc3, model_lines = lib.run_bin(lib.model_bin('chars'), ['chars'], timeout=60)
             model = dict(runs_from_thresholds(l) for l in model_lines if l.startswith('thr '))
         for p in PREDS:
             if p not in rust:
